@@ -206,6 +206,7 @@ func runC08(c *Ctx) {
 	c08ReadSide(c)
 	c08Switch(c)
 	c08Mask(c)
+	c08ClientCache(c)
 }
 
 func c08Anonymise(c *Ctx, pq *ssa.Function) {
@@ -560,4 +561,60 @@ func c08Mask(c *Ctx) {
 		r.Check(nV4 > 0 && len(off) == 0, "C08-D5", "v4-form-takes-precedence", p.FnPos(fn),
 			"the 80-bit mask applies only to addresses that have no 4-byte form", "an IPv4-mapped address can receive the IPv6 mask (its IPv4 bits would stay)")
 	}
+}
+
+// c08ClientCache: D6.  The client cache of the log search memoises the
+// "ignore this client" decision; it must not outlive one request, otherwise a
+// client that has been set to ignored meanwhile is still reported on later
+// pages.  Every cache handed to the record readers is a map made in the
+// search function itself.
+func c08ClientCache(c *Ctx) {
+	p, r := c.P, c.R
+	sf := p.Fn("(*querylog.queryLog).search")
+	if sf == nil {
+		r.Undecided("C08-D6", "search", "-", "anchor not found")
+		return
+	}
+	n := 0
+	bad := ""
+	for _, call := range core.Calls(sf) {
+		callee := call.Common.StaticCallee()
+		if callee == nil || core.PkgOf(callee) != "querylog" {
+			continue
+		}
+		for i, a := range call.Common.Args {
+			if core.TypeKey(a.Type()) != "querylog.clientCache" {
+				continue
+			}
+			n++
+			v := core.ResolveCellLoad(a)
+			if ct, ok := v.(*ssa.ChangeType); ok {
+				v = ct.X
+			}
+			if mm, ok := v.(*ssa.MakeMap); !ok || mm.Parent() != sf {
+				bad = fmt.Sprintf("argument %d of %s at %s", i, core.FuncKey(callee), p.InstrPos(call.Instr))
+			}
+		}
+	}
+	// nobody keeps a client cache in a field or a package variable
+	for _, fn := range p.ModFnsIn("querylog") {
+		for _, b := range fn.Blocks {
+			for _, in := range b.Instrs {
+				if st, ok := in.(*ssa.Store); ok && core.TypeKey(st.Val.Type()) == "querylog.clientCache" {
+					switch ad := st.Addr.(type) {
+					case *ssa.FieldAddr:
+						if _, local := ad.X.(*ssa.Alloc); !local { // a field of a local helper value lives as long as the call
+							fr, _ := core.FieldOfAddr(ad)
+							bad = "a client cache is stored in the field " + fr.String() + " at " + p.InstrPos(in)
+						}
+					case *ssa.Global:
+						bad = "a client cache is stored in the package variable " + ad.Name() + " at " + p.InstrPos(in)
+					}
+				}
+			}
+		}
+	}
+	r.Check(n >= 2 && bad == "", "C08-D6", "client-cache-per-request", p.FnPos(sf),
+		"the client cache of a log search is created by that search and handed down; it cannot carry an outdated ignore decision into a later request",
+		"the client cache of the log search outlives the request ("+bad+"): a client set to ignored after the first page is still reported on the following pages")
 }
